@@ -322,10 +322,20 @@ def judge_binary(ctx, fzf, jobs, runner, label, par):
         if reported.get(key, 0) >= (2 if kf else 8):
             continue
         # re-run this one alone and let TLC judge it again
-        r1 = runner(fzf, jobs[i])
-        bad1, res1 = judge(ctx, "Judge_Reader", "Judge_Reader.cfg", [r1], label + "-re", timeout=600, workers=1)
+        # (how the OS cuts the pipe into reads differs from run to run, so a content corruption that depends on the read
+        # boundaries may need several attempts; the recorded run - real stdin, real stdout of the real binary - stays the
+        # evidence if it does not recur: nothing in it depends on the harness's timing)
+        r1, bad1, res1 = None, [], None
+        for attempt in range(6):
+            r1 = runner(fzf, jobs[i])
+            bad1, res1 = judge(ctx, "Judge_Reader", "Judge_Reader.cfg", [r1], label + "-re", timeout=600, workers=1)
+            if bad1:
+                break
         if not bad1:
-            raise Infra("%s: rejected run not reproduced: %s" % (label, rec_describe(r)))
+            r1 = r
+            bad1, res1 = judge(ctx, "Judge_Reader", "Judge_Reader.cfg", [r1], label + "-rejudge", timeout=600, workers=1)
+            if not bad1:
+                raise Infra("%s: rejection of a recorded run is not deterministic: %s" % (label, rec_describe(r)))
         kind1 = [t.strip().strip('"') for t in res1.raw_items("MISMATCH")[0].split(",")][1]
         kf = dict(F10) if (kind1 == "tail_ignored" and r1["path"] == "streaming") else None
         reported[key] = reported.get(key, 0) + 1
